@@ -39,6 +39,10 @@ def main():
                 continue
         keep.append(l)
     new_entries = []
+    slugs = {}
+    for sig in by:
+        if slugs.setdefault(_slug(sig), sig) != sig:
+            sys.exit(f"two signatures map to one file name: {sig!r} and {slugs[_slug(sig)]!r} - rename one")
     for sig in sorted(by):
         cases = sorted(set(by[sig]))
         e = old.get(sig, {"property": pid, "sig": sig})
